@@ -84,6 +84,118 @@ func runC11(c *Ctx) {
 		ok4 := bw != nil && gatedByErrNil(site, bw)
 		c.Check(fname(wbs)+"#batch-before-head"+sfx, site.Pos(), ok4, ifelse(ok4, "batch.Write == nil dominates the head move", "the head can move before receipts and transaction lookups are durably written"))
 	}
+	// every call that can move the head — bc.insert itself or a function that reaches it (reorg) — comes
+	// after the block's header and body are durable
+	reachesInsert := func(fn *ssa.Function) bool {
+		if fn == nil {
+			return false
+		}
+		r := reachableStatic([]*ssa.Function{fn}, func(f *ssa.Function) bool { return f.Pkg != nil && f.Pkg.Pkg.Path() == full("core") })
+		for f := range r {
+			if o, ok := f.Object().(*types.Func); ok && sameFunc(o, insObj) {
+				return true
+			}
+		}
+		return false
+	}
+	var wbCall ssa.CallInstruction
+	var batchWrites []ssa.CallInstruction
+	for _, ci := range callInstrs(wbs) {
+		o := calleeObj(ci)
+		if o == nil {
+			continue
+		}
+		if o.Name() == "WriteBlock" && o.Pkg() != nil && o.Pkg().Path() == full("core/rawdb") {
+			wbCall = ci
+		}
+		if o.Name() == "Write" && (recvName(o) == "Batch" || recvName(o) == "Writer" || strings.Contains(recvName(o), "atch")) {
+			batchWrites = append(batchWrites, ci)
+		}
+	}
+	nMovers := 0
+	for _, ci := range callInstrs(wbs) {
+		callee := staticCallee(ci)
+		if callee == nil || !reachesInsert(callee) {
+			continue
+		}
+		nMovers++
+		c.sites++
+		key := fmt.Sprintf("%s#block-durable-before-%s@%s", fname(wbs), callee.Name(), siteOrdinal(wbs, ci, ""))
+		if wbCall == nil || !instrDominates(wbCall, ci) {
+			c.Fail(key, ci.Pos(), "rawdb.WriteBlock does not dominate this call, which can move the head: a restart finds head markers naming a block whose header/body were never written")
+			continue
+		}
+		// the writer the block goes to: the database itself, or a batch that is flushed before this call
+		viaBatch := derivesFrom(callArgs(wbCall)[0], func(v ssa.Value) bool {
+			cc, ok := v.(*ssa.Call)
+			return ok && calleeObj(cc) != nil && calleeObj(cc).Name() == "NewBatch"
+		})
+		ok := !viaBatch
+		if viaBatch {
+			for _, bw := range batchWrites {
+				if samePath(callRecv(bw), stripConv(callArgs(wbCall)[0])) && gatedByErrNil(ci, bw) {
+					ok = true
+				}
+			}
+		}
+		c.Check(key, ci.Pos(), ok, ifelse(ok, "the block is written to the database (directly or through a batch already flushed) before this call can move the head", "the block's header and body sit in an unflushed batch when this call writes the head markers straight to the database: a kill in that window leaves a head without a block, and the node cannot start"))
+	}
+	if nMovers < 2 {
+		c.Undecided(fname(wbs)+"#head-movers", wbs.Pos(), fmt.Sprintf("expected the reorg and insert calls, found %d calls that reach bc.insert", nMovers))
+	}
+	// the head is moved without a reorganisation only onto a child of the current head
+	for _, site := range ins {
+		c.sites++
+		var reorgBlocks = map[*ssa.BasicBlock]bool{}
+		for _, ci := range callInstrs(wbs) {
+			if callee := staticCallee(ci); callee != nil && callee.Name() == "reorg" {
+				reorgBlocks[ci.Block()] = true
+			}
+		}
+		nDirect, bad := 0, 0
+		okEnum := pathsBetween(wbs, wbs.Blocks[0], site.Block(), 20000, func(blocks []*ssa.BasicBlock, facts []Fact) {
+			for _, b := range blocks {
+				if reorgBlocks[b] {
+					return
+				}
+			}
+			nDirect++
+			isCallNamed := func(v ssa.Value, name string) *ssa.Call {
+				if cc, ok := stripConv(v).(*ssa.Call); ok && calleeObj(cc) != nil && calleeObj(cc).Name() == name {
+					return cc
+				}
+				return nil
+			}
+			childOfHead := false
+			for _, a := range atomsOf(facts) {
+				if a.Kind != "eq" || !a.Truth {
+					continue
+				}
+				for _, pr := range [][2]ssa.Value{{a.X, a.Y}, {a.Y, a.X}} {
+					ph, hh := isCallNamed(pr[0], "ParentHash"), isCallNamed(pr[1], "Hash")
+					if ph == nil || hh == nil {
+						continue
+					}
+					if callRecv(ph) != ssa.Value(wbs.Params[1]) {
+						continue
+					}
+					if isCallNamed(callRecv(hh), "CurrentBlock") != nil {
+						childOfHead = true
+					}
+				}
+			}
+			if !childOfHead {
+				bad++
+			}
+		})
+		key := fname(wbs) + "#direct-head-move-only-onto-child-of-head"
+		if !okEnum {
+			c.Undecided(key, site.Pos(), "paths to the head move could not be enumerated")
+			continue
+		}
+		c.Check(key, site.Pos(), bad == 0 && nDirect > 0, ifelse(bad == 0 && nDirect > 0, fmt.Sprintf("all %d paths that reach bc.insert without bc.reorg have established block.ParentHash() == bc.CurrentBlock().Hash()", nDirect), fmt.Sprintf("%d of %d paths move the head without reorganising although the block's parent is not known to be the current head: the number→hash entries between the fork point and the new head keep naming the old branch, so the index is no longer parent-linked", bad, nDirect)))
+	}
+
 	uhb := w.Fn("core", "BlockChain", "updateHeadBlock")
 	c.sawFunc(fname(uhb))
 	var canon, head ssa.CallInstruction
